@@ -22,21 +22,22 @@ type profile struct {
 	maxEvents int
 	noSeal    bool
 	forks     int // 0 none, 1 some runs, 2 most runs
+	resets    bool
 }
 
 var profiles = map[string]profile{
-	"C01": {on: []string{"agree"}, byz: 30, spec: 10, restarts: true, maxEvents: 140, forks: 1},
-	"C02": {on: []string{"delivery"}, byz: 20, restarts: true, maxEvents: 140, forks: 1},
-	"C03": {on: []string{"cheaters"}, heavyOK: true, maxEvents: 120, forks: 2},
+	"C01": {resets: true, on: []string{"agree"}, byz: 30, spec: 10, restarts: true, maxEvents: 140, forks: 1},
+	"C02": {resets: true, on: []string{"delivery"}, byz: 20, restarts: true, maxEvents: 140, forks: 1},
+	"C03": {resets: true, on: []string{"cheaters"}, heavyOK: true, maxEvents: 120, forks: 2},
 	"C04": {on: []string{"frame", "reject"}, byz: 250, spec: 120, storms: true, restarts: true, maxEvents: 90, forks: 1},
-	"C05": {on: []string{"fc"}, heavyOK: true, restarts: true, maxEvents: 110, forks: 2},
-	"C06": {on: []string{"clock"}, heavyOK: true, restarts: true, maxEvents: 110, forks: 2},
+	"C05": {resets: true, on: []string{"fc"}, heavyOK: true, restarts: true, maxEvents: 110, forks: 2},
+	"C06": {resets: true, on: []string{"clock"}, heavyOK: true, restarts: true, maxEvents: 110, forks: 2},
 	"C07": {on: []string{"twin", "reject"}, byz: 250, spec: 150, maxEvents: 90, forks: 1},
 	"C08": {on: []string{"restartenum"}, byz: 80, maxEvents: 70, forks: 1},
-	"C09": {on: []string{"seal", "joiner", "agree"}, byz: 20, restarts: true, maxEvents: 140, forks: 1},
-	"C10": {on: []string{"ref", "reject"}, byz: 120, spec: 10, restarts: true, maxEvents: 130, forks: 1},
-	"C20": {on: []string{"qi"}, heavyOK: true, maxEvents: 100, forks: 1, noSeal: false},
-	"C33": {on: []string{"roots"}, tinyRoots: true, byz: 30, restarts: true, maxEvents: 110, forks: 1},
+	"C09": {resets: true, on: []string{"seal", "joiner", "agree"}, byz: 20, restarts: true, maxEvents: 140, forks: 1},
+	"C10": {resets: true, on: []string{"ref", "reject"}, byz: 120, spec: 10, restarts: true, maxEvents: 130, forks: 1},
+	"C20": {resets: true, on: []string{"qi"}, heavyOK: true, maxEvents: 100, forks: 1, noSeal: false},
+	"C33": {resets: true, on: []string{"roots"}, tinyRoots: true, byz: 30, restarts: true, maxEvents: 110, forks: 1},
 }
 
 func (cl *Cluster) drawKnobs(p profile) {
@@ -51,7 +52,10 @@ func (cl *Cluster) drawKnobs(p profile) {
 	if thorough {
 		maxVal = 10
 	}
-	k.nVal = K("validators", ri("validators", 1, maxVal))
+	k.nVal = K("validators", func() int64 {
+		w := []int{1, 2, 3, 5, 5, 4, 3, 2, 1, 1}[:maxVal]
+		return int64(1 + c.PickW("validators", w))
+	})
 	k.weightMode = K("weight_mode", ri("weight_mode", 0, 5))
 	k.weights = make([]uint64, k.nVal)
 	for i := 0; i < k.nVal; i++ {
@@ -122,7 +126,12 @@ func (cl *Cluster) drawKnobs(p profile) {
 		k.personalities = K("personalities", ri("personalities", 0, 1))
 	}
 	k.observers = K("observers", ri("observers", 0, 1))
-	k.maxParents = K("max_parents", ri("max_parents", 1, 6))
+	k.maxParents = K("max_parents", func() int64 {
+		if c.Chance("few_parents", 250) {
+			return int64(c.Int("max_parents", 1, 3))
+		}
+		return int64(c.Int("max_parents", 3, k.nVal+1))
+	})
 	// caches
 	rootsChoices := []int{0, 1, 2, 5, 100, 1000}
 	if p.tinyRoots {
@@ -143,23 +152,35 @@ func (cl *Cluster) drawKnobs(p profile) {
 	k.sealFrame, k.maxEpochs = 0, 1
 	if !p.noSeal {
 		k.sealFrame = K("seal_frame", func() int64 {
-			if c.Chance("seals", 600) {
-				return int64(c.Int("seal_frame", 1, 12))
+			if c.Chance("seals", 650) {
+				return int64([]int{1, 2, 3, 4, 6, 9, 12}[c.PickW("seal_frame", []int{2, 3, 3, 2, 2, 1, 1})])
 			}
 			return 0
 		})
-		k.maxEpochs = K("max_epochs", ri("max_epochs", 1, 4))
+		k.maxEpochs = K("max_epochs", func() int64 { return int64(1 + c.PickW("max_epochs", []int{1, 3, 3, 2})) })
 	}
 	// size and fault rates (swarm: per-run)
 	maxEv := p.maxEvents
 	if thorough {
 		maxEv = maxEv * 5 / 2
 	}
-	k.events = K("events", ri("events", 8, maxEv))
+	k.events = K("events", func() int64 {
+		per := []int{3, 6, 12, 20, 30}[c.PickW("events_per_validator", []int{1, 2, 4, 4, 2})]
+		base := per * (k.nVal + 1) * maxEv / 100
+		if base < 6 {
+			base = 6
+		}
+		return int64(base - c.Int("events_jitter", 0, base/5))
+	})
 	k.dropPm = K("drop_permille", func() int64 { return int64(c.PickW("drop", []int{4, 2, 2, 1})) * 100 })
 	k.dupPm = K("dup_permille", func() int64 { return int64(c.PickW("dup", []int{4, 2, 1})) * 100 })
 	k.fifoPm = K("fifo_permille", func() int64 { return int64(c.PickW("fifo", []int{2, 2, 2, 1})) * 300 })
-	k.partitionPm = K("partition_permille", func() int64 { return int64(c.PickW("partition", []int{5, 2, 1})) * 15 })
+	k.partitionPm = K("partition_permille", func() int64 { return int64(c.PickW("partition", []int{4, 2, 1})) * 4 })
+	k.stallPm = K("stall_permille", func() int64 { return int64(c.PickW("stall", []int{3, 2, 1})) * 5 })
+	k.activity = make([]int, k.nVal+k.spare)
+	for i := range k.activity {
+		k.activity[i] = K(fmt.Sprintf("activity%d", i), func() int64 { return int64([]int{1, 2, 4, 8}[c.PickW("activity", []int{1, 1, 12, 1})]) })
+	}
 	k.restartPm = 0
 	if p.restarts {
 		k.restartPm = K("restart_permille", func() int64 { return int64(c.PickW("restart", []int{5, 2, 1})) * 12 })
@@ -172,7 +193,7 @@ func (cl *Cluster) drawKnobs(p profile) {
 	if p.spec > 0 {
 		k.specPm = K("speculative_build_permille", func() int64 { return int64(c.PickW("spec", []int{2, 3, 2})) * int64(p.spec) / 2 })
 	}
-	k.syncPm = K("sync_permille", func() int64 { return int64(c.PickW("sync", []int{3, 3, 1})) * 25 })
+	k.syncPm = K("sync_permille", func() int64 { return int64(1+c.PickW("sync", []int{3, 3, 1})) * 25 })
 	k.forkPm = K("fork_permille", func() int64 { return int64(c.PickW("fork", []int{1, 3, 2})) * 80 })
 	k.oldParentPm = K("old_parent_permille", func() int64 { return int64(c.PickW("oldp", []int{3, 2, 1})) * 100 })
 }
@@ -201,7 +222,7 @@ func Run(c *sim.Ctx, prop string) {
 		cl.addNode(0, fmt.Sprintf("n%d(obs)", len(cl.nodes)))
 	}
 	cl.partition = make([]int, len(cl.nodes))
-	g := &gen{cl: cl, p: p}
+	g := &gen{cl: cl, p: p, stallLeft: make([]int, len(cl.nodes))}
 	for {
 		op, ok := c.Next(g.next)
 		if !ok {
@@ -267,6 +288,11 @@ func (cl *Cluster) exec(op sim.Op) {
 			cl.c.Count("syncs", 1)
 			cl.syncFrom(n, m)
 		}
+	case "reset": // node n jumps to the epoch of node m
+		n, m := node(op.A[0]), node(op.A[1])
+		if n != nil && m != nil {
+			cl.resetTo(n, m)
+		}
 	case "syncall":
 		for _, n := range cl.nodes {
 			for _, m := range cl.nodes {
@@ -287,6 +313,10 @@ func (cl *Cluster) exec(op sim.Op) {
 // ---- generator ---------------------------------------------------------------------------------
 
 type gen struct {
+	stormLeft int
+	stormNode int
+	partLeft  int
+	stallLeft []int
 	cl       *Cluster
 	p        profile
 	steps    int
@@ -338,41 +368,81 @@ func (g *gen) next() (sim.Op, bool) {
 		return sim.Op{}, false
 	}
 
-	// partitions (generator state only)
-	if k.partitionPm > 0 && c.Chance("partition_toggle", k.partitionPm) {
-		parted := false
-		for _, x := range cl.partition {
-			if x != 0 {
-				parted = true
+	if g.stormLeft > 0 {
+		g.stormLeft--
+		if op, ok := g.genEmitFor(true, cl.nodes[g.stormNode]); ok {
+			return op, true
+		}
+		g.stormLeft = 0
+	}
+	if g.p.storms && g.storms < 2 && c.Chance("storm", 8) {
+		// a storm: hundreds of speculative builds of varying candidates on one instance, optionally right after a restart
+		var elig []int
+		for _, n := range cl.nodes {
+			if !n.stopped && n.val != 0 && cl.epochRef(n.epoch()).RV.Pos(n.val) >= 0 {
+				elig = append(elig, n.id)
 			}
 		}
-		if parted {
+		if len(elig) > 0 {
+			g.storms++
+			g.stormNode = elig[c.Pick("storm_node", len(elig))]
+			g.stormLeft = c.Int("storm_size", 250, 600)
+			c.Count("build_storms", 1)
+			if c.Bool("storm_after_restart") {
+				return sim.Op{K: "restart", A: []int64{int64(g.stormNode)}}, true
+			}
+		}
+	}
+	// partitions and stalls are episodes of bounded length (generator state only)
+	if g.partLeft > 0 {
+		g.partLeft--
+		if g.partLeft == 0 {
 			for i := range cl.partition {
 				cl.partition[i] = 0
 			}
 			return sim.Op{K: "note", S: []string{"heals"}}, true
 		}
+	} else if k.partitionPm > 0 && len(cl.nodes) > 1 && c.Chance("partition_start", k.partitionPm) {
 		for i := range cl.partition {
 			if c.Bool("side") {
 				cl.partition[i] = 1
 			}
 		}
+		g.partLeft = c.Int("partition_steps", 10, 80)
 		return sim.Op{K: "note", S: []string{"partitions"}}, true
+	}
+	for i := range g.stallLeft {
+		if g.stallLeft[i] > 0 {
+			g.stallLeft[i]--
+		}
+	}
+	if k.stallPm > 0 && len(cl.nodes) > 1 && c.Chance("stall_start", k.stallPm) {
+		i := c.Pick("stall_node", len(cl.nodes))
+		g.stallLeft[i] = c.Int("stall_steps", 10, 120)
+		return sim.Op{K: "note", S: []string{"stalls"}}, true
 	}
 
 	deliverable := g.deliverable()
-	wEmit := 10
-	wDeliver := len(deliverable)
-	if wDeliver > 40 {
-		wDeliver = 40
+	wEmit := 6
+	wDeliver := 3 * len(deliverable)
+	if wDeliver > 90 {
+		wDeliver = 90
 	}
 	wSpec := k.specPm / 10
 	wRestart := 0
 	if k.restartPm > 0 {
 		wRestart = 1
 	}
-	wSync := k.syncPm / 25
-	choice := c.PickW("action", []int{wEmit, wDeliver, wSync, wSpec, wRestart})
+	wSync := k.syncPm/25 + k.dropPm/60
+	if k.bufNum < 1000 {
+		wSync += 4
+	}
+	wReset := 0
+	lagN, lagM := g.laggard()
+	if g.p.resets && lagN >= 0 {
+		wReset = 2
+	}
+	choice := c.PickW("action", []int{wEmit, wDeliver, wSync, wSpec, wRestart, wReset})
 	switch choice {
 	case 0:
 		if op, ok := g.genEmit(false); ok {
@@ -395,7 +465,7 @@ func (g *gen) next() (sim.Op, bool) {
 	case 2:
 		n := c.Pick("sync_to", len(cl.nodes))
 		m := c.Pick("sync_from", len(cl.nodes))
-		if cl.partition[n] != cl.partition[m] || n == m {
+		if cl.partition[n] != cl.partition[m] || n == m || g.stallLeft[n] > 0 {
 			return sim.Op{K: "note", S: []string{"idle_steps"}}, true
 		}
 		return sim.Op{K: "sync", A: []int64{int64(n), int64(m)}}, true
@@ -404,6 +474,8 @@ func (g *gen) next() (sim.Op, bool) {
 			return op, true
 		}
 		return sim.Op{K: "note", S: []string{"idle_steps"}}, true
+	case 5:
+		return sim.Op{K: "reset", A: []int64{int64(lagN), int64(lagM)}}, true
 	default:
 		if c.Chance("restart", k.restartPm*10) {
 			n := c.Pick("restart_node", len(cl.nodes))
@@ -413,12 +485,28 @@ func (g *gen) next() (sim.Op, bool) {
 	}
 }
 
+// laggard finds a node that is at least one epoch behind another one.
+func (g *gen) laggard() (int, int) {
+	cl := g.cl
+	for _, n := range cl.nodes {
+		if n.stopped || g.stallLeft[n.id] > 0 {
+			continue
+		}
+		for _, m := range cl.nodes {
+			if !m.stopped && m.epoch() > n.epoch() && cl.partition[n.id] == cl.partition[m.id] {
+				return n.id, m.id
+			}
+		}
+	}
+	return -1, -1
+}
+
 func (g *gen) deliverable() []int {
 	cl := g.cl
 	var r []int
 	for i, m := range cl.inflight {
 		from := cl.pool[m.g].By
-		if cl.partition[m.to] == cl.partition[from] {
+		if cl.partition[m.to] == cl.partition[from] && g.stallLeft[m.to] == 0 {
 			r = append(r, i)
 		}
 	}
@@ -427,21 +515,33 @@ func (g *gen) deliverable() []int {
 
 // genEmit draws an emit (or speculative build) op for some eligible node.
 func (g *gen) genEmit(spec bool) (sim.Op, bool) {
+	return g.genEmitFor(spec, nil)
+}
+
+func (g *gen) genEmitFor(spec bool, forced *Node) (sim.Op, bool) {
 	cl, c := g.cl, g.cl.c
 	k := &cl.k
 	var elig []*Node
+	var ew []int
 	for _, n := range cl.nodes {
-		if n.stopped || n.val == 0 {
+		if n.stopped || n.val == 0 || g.stallLeft[n.id] > 0 {
 			continue
 		}
 		if cl.epochRef(n.epoch()).RV.Pos(n.val) >= 0 {
 			elig = append(elig, n)
+			ew = append(ew, k.activity[n.val-1])
 		}
 	}
 	if len(elig) == 0 {
 		return sim.Op{}, false
 	}
-	n := elig[c.Pick("emitter", len(elig))]
+	n := elig[c.PickW("emitter", ew)]
+	if forced != nil {
+		if forced.stopped || cl.epochRef(forced.epoch()).RV.Pos(forced.val) < 0 {
+			return sim.Op{}, false
+		}
+		n = forced
+	}
 	epoch := n.epoch()
 	// events of the current epoch known to n, per creator, in processing order
 	per := map[uint32][]int{}
@@ -480,7 +580,11 @@ func (g *gen) genEmit(spec bool) (sim.Op, bool) {
 	}
 	want := 0
 	if k.maxParents > 1 && len(oc) > 0 {
-		want = c.Int("other_parents", 0, min(k.maxParents-1, len(oc)+1))
+		mx := min(k.maxParents-1, len(oc)+1)
+		want = mx - c.PickW("fewer_parents", []int{6, 2, 1, 1})
+		if want < 0 {
+			want = 0
+		}
 	}
 	for j := 0; j < want && len(oc) > 0; j++ {
 		ci := c.Pick("parent_creator", len(oc))
@@ -498,11 +602,6 @@ func (g *gen) genEmit(spec bool) (sim.Op, bool) {
 	a := []int64{int64(n.id)}
 	if spec {
 		count := 1 + c.Pick("spec_count", 3)
-		if g.p.storms && g.storms < 2 && c.Chance("storm", 60) {
-			count = c.Int("storm_size", 250, 700)
-			g.storms++
-			c.Count("build_storms", 1)
-		}
 		a = append(a, int64(count), int64(sp))
 		for _, o := range others {
 			a = append(a, int64(o))
